@@ -20,3 +20,12 @@ for d in sorted(glob.glob('/verif/seeded/*/')):
 print('| seeded change | property | what it does | caught by | check strengthened first? |')
 print('|---|---|---|---|---|')
 for r in rows: print('| `%s` | %s | %s | %s | %s |'%r)
+
+# --update: rewrite the table between the markers in DESIGN.md
+import sys
+if '--update' in sys.argv:
+    import io
+    lines=['| seeded change | property | what it does | caught by | check strengthened first? |','|---|---|---|---|---|']+['| `%s` | %s | %s | %s | %s |'%r for r in rows]
+    d=open('/verif/DESIGN.md').read()
+    a=d.index('<!-- SEEDTABLE-BEGIN -->')+len('<!-- SEEDTABLE-BEGIN -->'); b=d.index('<!-- SEEDTABLE-END -->')
+    open('/verif/DESIGN.md','w').write(d[:a]+'\n'+'\n'.join(lines)+'\n'+d[b:])
